@@ -234,7 +234,167 @@ class Destroy(FnSpec):
 
 def add_metaread(reg):
     reg.set_class_home("MetadorMetaRead", "container/interface.py", "MetadorMeta")
-    specs = [ViewSpec("values", True), ViewSpec("items", True), ViewSpec("keys", False), GetItem(), Contains(), Destroy()]
+    specs = [ViewSpec("values", True), ViewSpec("items", True), ViewSpec("keys", False), GetItem(), Contains(), Destroy(), MetaInit()]
     for s in specs:
         reg.add(s)
     return specs
+
+
+# ---- MetadorMeta.__init__: the per-node object table rebuilt from the stored object nodes -------------------------------------------
+from pyvc.containers import SMap, SetIter  # noqa: E402
+
+ObjNode = z3.DeclareSort("StoredObjectNode")
+SCHEMA_NAME_OF = z3.Function("schema_name_encoded_in_node_name", ObjNode, S)  # StoredMetadata.from_node(n).schema.name (its own contract)
+STORED_OF = z3.Function("StoredMetadata_from_node", ObjNode, ObjNode)  # identity on nodes: the record made for that node
+IS_DS = z3.Bool("node_is_dataset")
+BASE_DIR = z3.Function("to_meta_base_path", S, B, S)
+HAS_DIR = z3.Bool("metadata_directory_exists")
+
+
+class TObjNode:
+    def sort(self):
+        return ObjNode
+
+    def wrap(self, t):
+        return ObjNodeV(t)
+
+    def unwrap(self, cx, v):
+        if isinstance(v, (ObjNodeV, StoredV)):
+            return v.t
+        raise Unsupported("not a stored object node")
+
+
+class ObjNodeV(SVal):
+    def __init__(self, t):
+        self.t = t
+
+    def py_isinstance(self, cx, c):
+        n = getattr(c, "name", c)
+        if n == "H5DatasetLike":
+            return True  # members of a metadata directory are datasets (TocInv; the code asserts it)
+        raise Unsupported(f"isinstance(obj_node, {n})")
+
+
+class StoredV(SVal):
+    def __init__(self, t):
+        self.t = t
+
+    def py_getattr(self, cx, n):
+        if n == "schema":
+            return SchemaOf(self.t)
+        raise Unsupported("stored metadata attribute " + n)
+
+
+class SchemaOf(SVal):
+    def __init__(self, t):
+        self.t = t
+
+    def py_getattr(self, cx, n):
+        if n == "name":
+            return SStr(SCHEMA_NAME_OF(self.t))
+        raise Unsupported("ref attribute " + n)
+
+
+class MetaGrp(SVal):
+    def __init__(self, members):
+        self.members = members
+
+    def meth_values(self, cx):
+        me = self
+
+        class _It(SVal):
+            def py_iter_schema(s, cx2):
+                return SetIter(TObjNode(), me.members.dom, lambda t: ObjNodeV(t))
+
+        return _It()
+
+
+class UserNode(SVal):
+    def py_getattr(self, cx, n):
+        if n == "name":
+            return SStr(z3.String("node_name"))
+        if n == "_self_container":
+            return self.mc
+        raise Unsupported("node attribute " + n)
+
+    def py_isinstance(self, cx, c):
+        n = getattr(c, "name", c)
+        if n == "H5DatasetLike":
+            return IS_DS
+        raise Unsupported(f"isinstance(node, {n})")
+
+
+class RawGet(SVal):
+    def __init__(self, members):
+        self.members = members
+
+    def meth_get(self, cx, path, default=None):
+        cx.effect("raw-get", path)
+        if cx.decide(HAS_DIR):
+            return MetaGrp(self.members)
+        if isinstance(default, dict) and not default:
+            return MetaGrp(SSet(TObjNode()))  # the empty dict given as default: nothing to iterate
+        raise Unsupported("another default for the missing metadata directory")
+
+
+class InitObjs(SObj):
+    def py_setattr(self, cx, name, val):
+        if name == "_objs" and isinstance(val, dict) and not val:
+            val = SMap(STR, TObjNode(), name="objs")
+        SObj.py_setattr(self, cx, name, val)
+
+
+class MetaInit(FnSpec):
+    file = "container/interface.py"
+    qual = "MetadorMeta.__init__"
+    props = ("C07", "C06")
+
+    def init(self):
+        self.bindings["H5DatasetLike"] = type("C", (), {"name": "H5DatasetLike"})()
+        self.bindings["H5GroupLike"] = type("C", (), {"name": "H5GroupLike"})()
+        self.bindings["cast"] = lambda cx, t, v: v
+        self.bindings["M"] = type("MNS", (SVal,), {"py_getattr": lambda s, cx, n: (lambda cx2, p, ds: SStr(BASE_DIR(p.t, ds.t if isinstance(ds, SBool) else (ds if z3.is_expr(ds) else z3.BoolVal(bool(ds)))))) if n == "to_meta_base_path" else (_ for _ in ()).throw(Unsupported("M." + n))})()
+        self.bindings["StoredMetadata"] = type("SMNS", (SVal,), {"meth_from_node": lambda s, cx, n: StoredV(n.t)})()
+
+        def inv(cx, env, it):
+            a = cx.ghost["mi"]
+            O = a.self.fields["_objs"]
+            k = z3.String(fresh_name("ik"))
+            n = z3.Const(fresh_name("in"), ObjNode)
+            return [
+                ("every-node-read-so-far-is-in-the-table-under-its-schema-name", z3.ForAll([n], z3.Implies(z3.Select(it.processed, n), z3.And(O.has(SCHEMA_NAME_OF(n)), O.get_term(SCHEMA_NAME_OF(n)) == n)))),
+                ("nothing-else-is", z3.ForAll([k], z3.Implies(O.has(k), z3.And(z3.Select(it.processed, O.get_term(k)), SCHEMA_NAME_OF(O.get_term(k)) == k)))),
+            ]
+
+        self.loops[0] = LoopSpec(inv, modifies=["obj_node", "obj"], havoc_inplace=["self._objs"])
+
+    def setup(self, cx):
+        members = SSet.fresh(TObjNode(), "object_nodes_in_the_metadata_directory")
+        n1, n2 = z3.Consts("n1 n2", ObjNode)
+        cx.assume(z3.ForAll([n1, n2], z3.Implies(z3.And(members.has(n1), members.has(n2), SCHEMA_NAME_OF(n1) == SCHEMA_NAME_OF(n2)), n1 == n2)))  # at most one object per schema name per node (MetadorMeta.__setitem__, C07)
+        me = InitObjs("MetadorMetaRead", name="self")
+        node = UserNode()
+        mc = SObj("ContainerStub", name="mc")
+        mc.fields["__wrapped__"] = RawGet(members)
+        node.mc = mc
+        a = A(self=me, node=node)
+        a.members = members
+        cx.ghost["mi"] = a
+        return a
+
+    def raises(self, cx, a):
+        return {}
+
+    def ensures(self, cx, a, res):
+        O = a.self.fields.get("_objs")
+        if not isinstance(O, SMap):
+            return [("table-initialised", z3.BoolVal(False), "")]
+        n = z3.Const(fresh_name("en"), ObjNode)
+        k = z3.String(fresh_name("ek"))
+        bd = a.self.fields.get("_base_dir")
+        gets = [e for e in cx.fx if e[0] == "raw-get"]
+        return [
+            ("metadata-directory-of-this-node", z3.BoolVal(isinstance(bd, SStr) and len(gets) == 1 and gets[0][1] is bd) if not isinstance(bd, SStr) else z3.And(z3.BoolVal(len(gets) == 1 and gets[0][1] is bd), bd.t == BASE_DIR(z3.String("node_name"), IS_DS)), "the objects are looked up in the metadata directory of THIS node (path of the node, dataset or group form)"),
+            ("every-stored-object-is-in-the-table", z3.ForAll([n], z3.Implies(z3.And(HAS_DIR, a.members.has(n)), z3.And(O.has(SCHEMA_NAME_OF(n)), O.get_term(SCHEMA_NAME_OF(n)) == n))), "after (re)opening, every object stored for the node is found under its schema name — all of them, not only the last one read"),
+            ("and-nothing-else", z3.ForAll([k], z3.Implies(O.has(k), z3.And(HAS_DIR, a.members.has(O.get_term(k)), SCHEMA_NAME_OF(O.get_term(k)) == k))), "the table holds nothing but the stored objects (empty when the node has no metadata directory)"),
+        ]
